@@ -92,7 +92,8 @@ PROPS = {
                       "stopping is accepted only with exactly n points including the anchor, and the three notations of an exact finite series "
                       "must be equal and iterate identically.",
         "drivers": ["c12"],
-        "mc": [{"module": "MC_C12.tla", "cfg": "MC_C12.cfg"}, {"module": "MC_C12.tla", "cfg": "MC_C12_nominal.cfg"},
+        "mc": [{"module": "MC_C12.tla", "cfg": "MC_C12.cfg", "may_be_idle": ["ShiftAct"]},
+               {"module": "MC_C12.tla", "cfg": "MC_C12_nominal.cfg", "may_be_idle": ["ShiftAct"]},
                {"module": "MC_C12.tla", "cfg": "MC_C12_twin1.cfg", "expect_violation": True},
                {"module": "MC_C12.tla", "cfg": "MC_C12_twin2.cfg", "expect_violation": True, "tier": "thorough"},
                {"module": "MC_C12.tla", "cfg": "MC_C12_known.cfg", "expect_violation": True}], "expect_ops": ["IterOpen", "IterNext", "IterStop", "IterAbandon", "Notations"],
@@ -106,7 +107,7 @@ PROPS = {
                       "get_is_valid, r[i], get_next, get_prev and get_first_after are then judged by TLC against that series on the timeline, "
                       "for members re-expressed in other offsets/representations, points 1 s either side, before the first and after the last.",
         "drivers": ["c13"],
-        "mc": [{"module": "MC_C12.tla", "cfg": "MC_C12.cfg"},
+        "mc": [{"module": "MC_C12.tla", "cfg": "MC_C12.cfg", "may_be_idle": ["ShiftAct"]},
                {"module": "MC_C12.tla", "cfg": "MC_C12_twin3.cfg", "expect_violation": True}], "expect_ops": ["IterOpen", "IterNext", "Query"],
         "rule": "one case = one recurrence with ~5 probes per member x 5 query kinds; all cases non-trivial",
         "assumptions": TRUST,
